@@ -38,6 +38,26 @@ CHECKS.update({
               "conformance reports drift."),
         design_ref="§4 C01, §3.2", note=CORE_NOTE + " Raw-core level in this round; session level is covered by the session checks.",
         technique="TLA+ spec of the ARQ core + TLC; behaviour replay with per-step state comparison; TLC trace validation"),
+    "C02": dict(
+        category="model_checking",
+        text=("KcpNet.tla with a Heal action: TLC explores every fate assignment within the fault budget (drops, duplicates, reordering, "
+              "outages up to 60-120 s) and from every reachable state the healed continuation is deterministic (deliver in order, read, "
+              "flush both ends every interval); the exact timed model must then be drained within HealBound -- a wedge (data never "
+              "retransmitted, ACK never sent, queue not advancing) shows up as a bound violation. On the code every replayed behaviour, "
+              "goal witness and seeded random lossy run (both drives) ends with the same settling phase and the C02 monitors (Drained, "
+              "WithinBound computed by TLC from the state logged at the heal instant) decide. TLC finds one wedge of the pinned code "
+              "(message with more fragments than the receiver's window), reproduced on the code each run: listed known finding."),
+        design_ref="§4 C02", note=CORE_NOTE + " Liveness is checked as bounded progress on the exact timed model (deterministic healed phase), not as a temporal formula under fairness.",
+        technique="TLA+ timed model with deterministic healed phase + TLC (bounded-progress invariant); settle-phase traces judged by TLC monitors"),
+    "C03": dict(
+        category="model_checking",
+        text=("As C02 with the receiving application not reading until the heal: receive windows 1..3, with/without congestion control, "
+              "fast mode; within the budget any datagram (in particular every WASK/WINS/ACK) may be lost; Prefix and the C04 bounds "
+              "hold throughout and the transfer completes within HealBound (which includes the 120 s probe cap) after the reader "
+              "resumes. On the code: seeded stall scenarios (pause 0.1 s..10 min of virtual time at a random point, every control-only "
+              "datagram lost during a sub-interval, windows 1..32, both drives) with the same monitors."),
+        design_ref="§4 C03", note=CORE_NOTE,
+        technique="TLA+ timed model with paused reader + TLC; virtual-time stall scenarios judged by TLC monitors"),
     "C04": dict(
         category="model_checking",
         text=("The C04 bounds are invariants of KcpNet.tla checked by TLC including forged-segment steps (boundary classes of sn/una/wnd/ts); "
